@@ -158,9 +158,10 @@ Fails(ev, r) ==
 (* unclaimed conformance fact: byte-exact layout of the formats Wire.tla specifies *)
 WireFmt == INSTANCE Wire
 WireNote(ev) ==
-  IF ev.e = "Enc" /\ ev.codec \in WireFmt!WireCodecs /\ ev.fault = 0 /\ Len(ev.xs) <= 40
-     /\ Accepts(ev.codec, ev.param, ev.xs)
-  THEN LET want == WireFmt!Enc(ev.codec, ev.xs)
+  IF ev.e = "Enc" /\ ev.fault = 0 /\ Len(ev.xs) <= 40 /\ Accepts(ev.codec, ev.param, ev.xs) /\ ev.written >= 1
+     /\ (ev.codec \in WireFmt!WireCodecs \/ (ev.codec = "adaptive" /\ ev.hdr[1] \in WireFmt!AdaptiveTypes))
+  THEN LET want == IF ev.codec = "adaptive" THEN WireFmt!AdaptiveEnc(ev.hdr[1], ev.xs)
+                   ELSE WireFmt!Enc(ev.codec, ev.xs)
            k == Len(ev.hdr)
            same == Len(want) = ev.written /\ k <= Len(want) /\ SubSeq(want, 1, k) = ev.hdr
        IN PrintT(<<"NOTE", "wire-checked", 1>>)
